@@ -69,7 +69,7 @@ func c17Run(c string) string {
 	panic("C17: bad case kind")
 }
 
-var c17Subjects = []string{"", "ack", "phr", "p.ab", "p.ab.cd", "p.g", "p.og", "p.log", "p.node1.parent2", "p.0123456789abcd", "log", "test/subject/23", "p.q.r"}
+var c17Subjects = []string{"", "ack", "phr", "p.ab", "p.ab.cd", "p.g", "p.og", "p.log", "p.node1.parent2", "p.0123456789abcd", "log", "test/subject/23", "p.q.r", "logs", "logLevel", "log.a", "login/abc", "lo", "Log", "blog"}
 
 func c17Gen(r *rand.Rand, n int, tier string) []string {
 	var out []string
